@@ -445,6 +445,35 @@ def install():
     G.unsupported = unsupported
 
 
+class _Watchdog(Exception):
+    pass
+
+
+TIMEOUTS: list = []  # inputs on which a call into sqlglot did not come back within the watchdog (reported in the evidence)
+
+
+class watchdog:
+    """SIGALRM guard around one call into sqlglot: a call that does not come back is C05's subject, not a level matter"""
+
+    def __init__(self, seconds=10.0):
+        self.seconds = seconds
+
+    def __enter__(self):
+        import signal
+
+        def handler(signum, frame):
+            raise _Watchdog()
+
+        self.old = signal.signal(signal.SIGALRM, handler)
+        signal.setitimer(signal.ITIMER_REAL, self.seconds)
+
+    def __exit__(self, *a):
+        import signal
+        signal.setitimer(signal.ITIMER_REAL, 0)
+        signal.signal(signal.SIGALRM, self.old)
+        return False
+
+
 def dump_tree(e):
     if e is None:
         return None
@@ -479,14 +508,22 @@ def parse_run(sql, dialect, level, max_errors=3, max_nodes=None, api="parse"):
     if max_nodes is not None:
         opts["max_nodes"] = max_nodes
     try:
-        if api == "parse":
-            trees = sqlglot.parse(sql, read=dialect, **opts)
-        else:
-            from sqlglot.dialects.dialect import Dialect
-            d = Dialect.get_or_raise(dialect)
-            trees = d.parser(**opts).parse(d.tokenize(sql), sql)
+        with watchdog():
+            if api == "parse":
+                trees = sqlglot.parse(sql, read=dialect, **opts)
+            else:
+                from sqlglot.dialects.dialect import Dialect
+                d = Dialect.get_or_raise(dialect)
+                trees = d.parser(**opts).parse(d.tokenize(sql), sql)
         rec["status"] = "returned"
         rec["trees"] = [dump_tree(t) for t in trees]
+    except _Watchdog as e:
+        rec["status"] = "RecursionError"  # treated like the other resource limit
+        rec["exc"] = e
+        rec["timeout"] = True
+        _TRACE["stack"] = []
+        if len(TIMEOUTS) < 10:
+            TIMEOUTS.append({"call": "parse", "sql": sql, "dialect": dialect, "level": level})
     except ParseError as e:
         rec["status"] = "ParseError"
         rec["exc"] = e
@@ -1010,13 +1047,20 @@ def gen_run(tree, write, level, max_unsupported=3, via=None):
     before = len(_CAP.records)
     rec: dict = {"level": level}
     try:
-        if via is None:
-            rec["sql"] = tree.sql(dialect=write, unsupported_level=ErrorLevel[level], max_unsupported=max_unsupported)
-        else:
-            sql, read = via
-            rec["sql"] = sqlglot.transpile(sql, read=read, write=write, unsupported_level=ErrorLevel[level],
-                                           max_unsupported=max_unsupported)
+        with watchdog():
+            if via is None:
+                rec["sql"] = tree.sql(dialect=write, unsupported_level=ErrorLevel[level], max_unsupported=max_unsupported)
+            else:
+                sql, read = via
+                rec["sql"] = sqlglot.transpile(sql, read=read, write=write, unsupported_level=ErrorLevel[level],
+                                               max_unsupported=max_unsupported)
         rec["status"] = "returned"
+    except _Watchdog as e:
+        rec["status"] = "RecursionError"
+        rec["exc"] = e
+        rec["timeout"] = True
+        if len(TIMEOUTS) < 10:
+            TIMEOUTS.append({"call": "generate", "sql": tree.sql()[:400], "write": write, "level": level})
     except UnsupportedError as e:
         rec["status"] = "UnsupportedError"
         rec["exc"] = e
@@ -1092,7 +1136,8 @@ def gen_inputs(chk, n):
         else:
             sql, read = g_statement(rng), rng.choice(dialects)
         try:
-            trees = [t for t in sqlglot.parse(sql, read=read) if t is not None]
+            with watchdog():
+                trees = [t for t in sqlglot.parse(sql, read=read) if t is not None]
         except Exception:  # noqa
             continue
         finally:
@@ -1242,7 +1287,8 @@ def report_gen(chk, sql, read, write, mx, bad):
 
     def test(ts):
         try:
-            trees = [t for t in sqlglot.parse(untoks(ts), read=read) if t is not None]
+            with watchdog():
+                trees = [t for t in sqlglot.parse(untoks(ts), read=read) if t is not None]
         except Exception:  # noqa
             return False
         if not trees:
@@ -1282,7 +1328,8 @@ def search(chk: Check, hints, gen_hints, budget_s: float) -> None:
     def consider_gen(sql, read, write, mx):
         nonlocal gtried, found
         try:
-            trees = [t for t in sqlglot.parse(sql, read=read) if t is not None]
+            with watchdog():
+                trees = [t for t in sqlglot.parse(sql, read=read) if t is not None]
         except Exception:  # noqa
             return
         finally:
@@ -1348,6 +1395,10 @@ def run(chk: Check) -> None:
     if chk.broken:
         budget *= 3
     search(chk, hints, ghints, budget)
+    chk.cov["watchdog_timeouts"] = TIMEOUTS
+    if TIMEOUTS:
+        chk.note(f"{len(TIMEOUTS)} call(s) into sqlglot hit the 10 s watchdog (skipped; termination is C05's subject): "
+                 + json.dumps(TIMEOUTS[0])[:300])
 
 
 def replay(path: str) -> int:
